@@ -291,12 +291,6 @@ def gen_lifecycle():
          "PeerConnection::recv ends once signaling is Closed", PC)
 
     # ---------------------------------------------------------------- SCTP cleanup guard, close, sender loop
-    _, _, gd = rs2v.find_fn(sctp, "drop", "<'a> Drop for SctpCleanupGuard<'a>") if False else (None, None, None)
-    mm = re.search(r"impl<'a> Drop for SctpCleanupGuard<'a> \{ fn drop\(&mut self\) \{(.*?)\} \} (?:///|#\[|pub struct)", norm(rs2v.read(SCTP)))
-    if not mm:
-        raise Untranslatable("SctpCleanupGuard::drop not found")
-    gd = norm(rs2v.strip_comments(mm.group(1)))
-    gd = re.sub(r"\s*//[^\n]*", "", gd)
     gsrc = norm(rs2v.strip_comments(re.search(r"impl<'a> Drop for SctpCleanupGuard<'a> \{.*?\n\}\n", rs2v.read(SCTP), re.S).group(0)))
     if not re.search(r"\*self\.inner\.state\.lock\(\) = SctpState::Closed;", gsrc):
         raise Untranslatable("SctpCleanupGuard::drop no longer sets the state to Closed")
